@@ -16,6 +16,8 @@ ASSUMPTIONS = ["service latency L(cfg) is the closed form R_Refresh!LService ove
 TRAFFIC = {
     "saturating": [dict(profile="uniform", ncmd=2500, gap=0), dict(profile="pingpong", ncmd=2500, gap=0, seed=1)],
     "singlebank": [dict(profile="samebank_altrow", ncmd=2500, gap=0), dict(profile="samebank_rows", ncmd=2500, gap=0, seed=2, bank=0)],
+    "rowchange":  [dict(profile="samebank_altrow", ncmd=2500, gap=0, dir="r")],
+    "rowchangew": [dict(profile="samebank_altrow", ncmd=2500, gap=0, dir="w")],   # one bank, every access to another row than the previous one
     "allwrite":   [dict(profile="uniform", ncmd=3000, gap=0, dir="w"), dict(profile="samerow", ncmd=3000, gap=0, dir="w", seed=3)],
     "allread":    [dict(profile="uniform", ncmd=3000, gap=0, dir="r"), dict(profile="samerow", ncmd=3000, gap=0, dir="r", seed=4)],
     "idle":       [dict(profile="bursty", ncmd=400)],
@@ -28,7 +30,8 @@ def scenarios(tier, seed):
     if tier == "quick":
         plan = [("SDR", "sparse", 1, 1001), ("SDR166", "sparse", 2, 1003), ("SDR", "saturating", 1, 1003), ("SDR", "singlebank", 2, 1250), ("SDR166", "allwrite", 4, 1207),
                 ("DDR3", "allread", 1, 1507), ("DDR3", "saturating", 8, 1300), ("DDR", "idle", 2, 1111),
-                ("DDR3_200", "singlebank", 1, 1003), ("DDR4", "saturating", 2, 1409)]
+                ("DDR3_200", "singlebank", 1, 1003), ("DDR4", "saturating", 2, 1409),
+                ("SDR", "rowchange", 1, 1100), ("DDR3", "rowchangew", 2, 1400)]
     else:
         plan = []
         refis = [1003, 1250, 1207, 1507, 1300, 1111, 1409, 2001]
@@ -37,7 +40,9 @@ def scenarios(tier, seed):
             for tr in TRAFFIC:
                 plan.append((b, tr, [1, 2, 4, 8][i % 4], refis[i % len(refis)]))
                 i += 1
+    from .corecommon import BASE
     for i, (b, tr, n, refi) in enumerate(plan):
+        refi = max(refi, 106000000 // BASE[b]["clk_khz"] + 1)      # the Refresher refuses tREFI below 100 controller cycles
         ports = [dict(p) for p in TRAFFIC[tr]]
         if tier == "thorough":
             for p in ports:
@@ -54,7 +59,8 @@ def scenarios(tier, seed):
                         params=dict(tREFI=100 + 7 * n + j, N=n, tRP=2 + j % 3, tRFC=9 + j, tZQCS=5 + j % 4, zq=zq, zqperiod=601 + 90 * j, dmax=25)))
     out.append(dict(name="b3-refresher", kind="b3", seed=seed, cfg="MC_Refresher_sim.cfg", num=6 if tier == "quick" else 60, depth=700,
                     params=dict(tREFI=100, N=2, tRP=2, tRFC=3, tZQCS=2, zq=True, zqperiod=331, dmax=6)))
-    return out
+    from . import c03
+    return out + c03.muxr_lockstep_scenarios(tier, seed)
 
 
 def _lockstep(sc, workdir):
@@ -94,7 +100,14 @@ def models(tier, seed):
           dict(module="MC_Refresher", cfg="MC_Refresher_cover_zq.cfg", label="cover: ZQCS on the bus", workers=1, timeout=1200, expect_violation=True),
           dict(module="MC_Refresher", cfg="MC_Refresher_cover_burst.cfg", label="cover: last REF of a postponed burst", workers=1, timeout=1200, expect_violation=True),
           dict(module="MC_Refresher", cfg="MC_Refresher_cover_late.cfg", label="cover: grant after the worst delay", workers=1, timeout=1200, expect_violation=True)]
+    # composition: D_MultiplexerR (lock-step bound) + D_Refresher (lock-step bound) + abstract bank machines
+    ms += [dict(module="MC_MuxRef", cfg="MC_MuxRef_live.cfg", label="multiplexer+refresher+bank machines: every refresh request is served, every bank-machine request accepted (liveness)", workers=3, timeout=2400),
+           dict(module="MC_MuxRef", cfg="MC_MuxRef_neg_bmref.cfg", label="negative control: bank machines serve their command before looking at refresh_req", workers=2, timeout=2400, expect_violation=True),
+           dict(module="MC_MuxRef", cfg="MC_MuxRef_neg_wtr.cfg", label="negative control: WTR left only with a read pending", workers=2, timeout=2400, expect_violation=True)]
     if tier == "thorough":
+        ms += [dict(module="MC_MuxRef", cfg="MC_MuxRef_quick.cfg", label="composition: device clauses on the registered DFI phases around refresh (REF with banks closed, tRFC, tRRD/tCCD/tWTR)", workers=4, timeout=3000),
+               dict(module="MC_MuxRef", cfg="MC_MuxRef_neg_rfc.cfg", label="negative control: device needs more tRFC than the refresher waits", workers=4, timeout=3000, expect_violation=True),
+               dict(module="MC_MuxRef", cfg="MC_MuxRef_cover.cfg", label="cover: refresh requested while the multiplexer is in WTR", workers=2, timeout=1800, expect_violation=True)]
         ms += [dict(module="MC_Refresher", cfg="MC_Refresher_n3.cfg", label="refresher N=3 +ZQCS", workers=4, timeout=3000),
                dict(module="MC_Refresher", cfg="MC_Refresher_n8.cfg", label="refresher N=8 +ZQCS", workers=4, timeout=3000)]
     return ms
@@ -105,6 +118,9 @@ def execute(sc, workdir):
         return _lockstep(sc, workdir)
     if sc.get("kind") == "b3":
         return _b3(sc, workdir)
+    if sc.get("kind") == "lockstep-muxr":
+        from . import c03
+        return c03._lockstep_mux(sc, workdir)
     r = execute_core(sc, workdir, ID, ("dev", "ref"))
     nref = r["info"]["nref"]
     r["nontrivial"] = [[sc["name"].rsplit("-refi", 1)[0]]] if nref >= 20 else []
